@@ -114,6 +114,10 @@ Flags == {"dotted", "relaxed"}
 OpenKinds == {"if0", "if1", "mac", "rept", "sec", "str", "sav", "pha"}
 KindsHist == {S("ok"), S("err"), S("fwd"), S("expect")} \cup {Ln("flag", 0, f, "") : f \in Flags} \cup {Ln("probe", 0, f, "") : f \in Flags}
              \cup {Ln("open", 0, "", t) : t \in OpenKinds}
+\* all mode flags the replay renders (model checking uses two of them: they behave alike in the model)
+FlagsAll == {"dotted", "relaxed", "padding", "supmode", "org", "radix", "charset", "sym", "cpu"}
+KindsHistAll == {S("ok"), S("err"), S("fwd"), S("expect")} \cup {Ln("flag", 0, f, "") : f \in FlagsAll}
+                \cup {Ln("probe", 0, f, "") : f \in FlagsAll} \cup {Ln("open", 0, "", t) : t \in OpenKinds}
 KindsAll == KindsDiag \cup KindsHist
 
 Finished == pc = "done"
